@@ -774,7 +774,7 @@ static int ec_redo(char *loc, char *cmd, char *arg, char *txt)
 static int ec_mark(char *loc, char *cmd, char *arg, char *txt)
 {
 	int beg, end;
-	if (ex_region(loc, &beg, &end))
+	if (ex_region(loc, &beg, &end) || end <= beg)
 		return 1;
 	lbuf_mark(xb, (unsigned char) arg[0], end - 1, 0);
 	return 0;
